@@ -753,6 +753,37 @@ def u15(ctx, rid):
         ctx.ok(rid, key, f.where(), 'is_deleted() asked of last(); removal by pop / truncate(len - 1)')
 
 
+def u16(ctx, rid):
+    """timestamps are supplied by the client, so the newest version or the deciding marker may sit in any blob: contains_with and
+    read_with_optional_meta answer only with what the full traversal (Storage::get_latest_entry over the active blob and every
+    candidate closed blob) returned - no shortcut answers from the active blob alone"""
+    prog = ctx.prog
+    n = 0
+    for name in ('contains_with', 'read_with_optional_meta'):
+        f = prog.body_of('storage::core::Storage::<K>::%s' % name)
+        if f is None:
+            raise core.AnchorLost('Storage::%s' % name)
+        n += 1
+        key = 'answer-from-full-traversal|storage::core::Storage::<K>::%s' % name
+        full = [c for c in f.calls if c.bb in f.reachable() and any(t.endswith('Storage::<K>::get_latest_entry') for t in prog.resolve(c))]
+        if not full:
+            ctx.bad(rid, key, f.where(), 'the lookup does not go through Storage::get_latest_entry (the traversal of all blobs)')
+            continue
+        evs = []
+        for c in full:
+            ob = core.ok_block(f, c) or core.completion_block(f, c)
+            if ob is not None:
+                evs.append(ob)
+        free = f.reach_from([0], avoid_enter=evs)
+        early = [bb for (bb, k, _) in core.exit_defs(f) if k in ('ok', 'fwd', 'val') and bb in free and bb in f.reachable()]
+        if early:
+            ctx.bad(rid, key, f.where(early[0]), 'an Ok answer is returned without the traversal of all blobs having completed (a shortcut, e.g. from the active blob alone): a newer version or a newer deletion marker in a closed blob is ignored, contains disagrees with read and the duplicate check drops an acknowledged write')
+        else:
+            ctx.ok(rid, key, full[0].where(), 'every Ok answer follows the completed traversal')
+    if n < 2:
+        raise core.AnchorLost('storage point lookups: %d' % n)
+
+
 RULES = [
     Rule('C02.U1', 'the append in the write path is dominated by the duplicate policy branch; a found duplicate is acknowledged without storing', u1, 1),
     Rule('C02.U2', 'closed blobs are only ever marked with only_if_presented = true', u2, 2),
@@ -768,5 +799,6 @@ RULES = [
     Rule('C02.U13', 'delete_core visits the closed blobs on every path that returns Ok', u13, 1),
     Rule('C02.U14', 'every blob that contributes entries advances the counter that enables the cross-blob merge', u14, 2),
     Rule('C02.U15', 'read_all strips exactly the trailing deletion marker of the marker-terminated list', u15, 1),
+    Rule('C02.U16', 'the storage point lookups answer only after the traversal of all blobs completed', u16, 2),
     Rule('C02.U6', 'the point lookup consults every candidate closed blob before it returns Ok', u6, 1),
 ]
